@@ -78,8 +78,8 @@ Definition check_collision (s : state) (pkid : N) : state * option publish :=
   | None => (s, None)
   end.
 
-(** the closure both ack handlers run on a resolved collision (after the fix: commits for F4
-    both of them record the publish before handing it to the network) *)
+(** the closure both ack handlers run on a resolved collision (since the fix: commit for F4
+    handle_incoming_pubcomp records the publish too, as handle_incoming_puback always did) *)
 Definition resend_collided (s : state) (p : publish) : R (option packet) :=
   do (s, _) <- pub_store s (p_pkid p) (Some p);
   do (s, _) <- inflight_inc s;
